@@ -354,6 +354,13 @@ func (g *SynGen) Stmt(d int) string {
 			return []string{"with (a) b;\n", "var yield_ = 010 + 08 + 0.5;\n", "\"\\07\\8\";\n", "delete x_;\n", "var let_;\nlet_ = 1;\n", "function f_dup(a, a) {}\n", "if (0) function g_() {} else function h_() {}\n", "var arguments_, eval_;\n", "a = 00;\n", "label: function lf() {}\n", "var public_, interface_, package_;\nvar implements, interface, package, private, protected, public;\n"}[r.Intn(11)]
 		}
 		return g.ident() + ";\n"
+	case 18:
+		g.stat("newline-before-close-paren")
+		forms := []string{"if (a\n) b;\n", "if (a\n) b; else\nc;\n", "while (a\n) b;\n", "for (;;\n) break;\n", "for (x of y\n) z;\n", "for (x in y\n) z;\n", "do x; while (y\n);\n", "for (var i = 0; i < 1; i++\n) i;\n", "switch (a\n) { }\n", "if (a)\nb;\nelse c;\n", "while (a)\nb;\n", "for (;;)\nbreak;\n"}
+		if !g.Strict {
+			forms = append(forms, "with (a\n) b;\n", "with (a)\nb;\n", "with (a\n) b += c;\n", "with (a\n)\n{ b }\n")
+		}
+		return forms[r.Intn(len(forms))]
 	case 15:
 		g.stat("html-comments")
 		if g.Module {
@@ -387,5 +394,24 @@ func (g *SynGen) Program(n int, d int) string {
 	for i := 0; i < n; i++ {
 		sb.WriteString(g.Stmt(d))
 	}
-	return sb.String()
+	// layout variation: a line break before a closing parenthesis or after an opening one never
+	// triggers ASI (if it lands inside a string or regular expression V8 rejects the input and the
+	// case is discarded)
+	out := sb.String()
+	// (calls of an identifier named `async` keep their own line breaks: recorded known finding
+	// c13-async-call-multiline-not-fixed-point)
+	if g.R.Chance(1, 3) && !strings.Contains(out, "async(") && !strings.Contains(out, "async (") && !strings.Contains(out, "async\n(") {
+		var lb strings.Builder
+		for i := 0; i < len(out); i++ {
+			if out[i] == ')' && g.R.Chance(1, 6) {
+				lb.WriteString("\n")
+			}
+			lb.WriteByte(out[i])
+			if out[i] == '(' && g.R.Chance(1, 10) {
+				lb.WriteString("\n")
+			}
+		}
+		out = lb.String()
+	}
+	return out
 }
